@@ -1,4 +1,4 @@
-import PilotaModel.Lemmas.PbReads2
+import PilotaModel.Lemmas.PbSpecSound
 import PilotaModel.Props.PbTables
 /-
   C06 — pilota's protobuf wire format conforms to the protobuf encoding spec.
@@ -51,6 +51,18 @@ theorem pilota_reads_any_spec (ps : Spec.PSchema) (hs : WFSchema (Spec.lowerSche
     (henc : Spec.Enc ps i m bs) (hm : HasType (Spec.lowerSchema ps) true i m) :
     decode (Spec.lowerSchema ps) i bs = .ok m :=
   decode_reads_spec ps hs i m bs henc hm
+
+/-- the executable checker `Spec.check` (generic wire parser with minimal keys and length prefixes,
+then the per-field conditions of `Spec.Enc`) is sound for the relation: the encodings T1 feeds to
+pilota after `Spec.check` accepted them are members of `Spec.Enc`. -/
+theorem spec_check_sound (ps : Spec.PSchema) (i : Nat) (m : Slots) (bs : Bytes) (h : Spec.check ps i m bs = true) :
+    Spec.Enc ps i m bs := Spec.check_sound ps i m bs h
+
+/-- …and are therefore decoded by pilota to the value. -/
+theorem checked_encoding_is_read (ps : Spec.PSchema) (hs : WFSchema (Spec.lowerSchema ps) = true) (i : Nat) (m : Slots) (bs : Bytes)
+    (h : Spec.check ps i m bs = true) (hm : HasType (Spec.lowerSchema ps) true i m) :
+    decode (Spec.lowerSchema ps) i bs = .ok m :=
+  pilota_reads_any_spec ps hs i m bs (spec_check_sound ps i m bs h) hm
 
 /-- the two directions together: what one pilota peer writes, any pilota peer reads (a corollary that
 does not mention the reference — kept to show the reference relation is inhabited by real encodings). -/
